@@ -239,6 +239,8 @@ def _to_py(idx):
 
 _run_chains = run
 def run(R, tier, rng):
+    from harness import fam_ra2
+    fam_ra2.ownership_stage(R, tier, rng)      # arrays derived by functions (concatenate, astype, where ...): writing into them changes no older array and vice versa
     _run_chains(R, tier, rng)
     run_programs(R, tier, rng)
 RULE = RULE + " || " + OBS_RULE
